@@ -273,6 +273,8 @@ def frombytes(ex, st, tc, b: VSeq, line):
 
 
 def stream_content(st, s):
+    if not hasattr(s, "sid"):
+        raise Unsupported("written(x) of something that is not a stream in this context")
     if s.sid not in st.streams:
         raise Unsupported("unknown stream")
     return st.streams[s.sid]
